@@ -87,10 +87,29 @@ pub fn run(ctx: &mut Ctx) {
     ctx.meta("rule", "cases: (tree, subset of masters encoded with unknown size, marker width); trees = every forest over V up to the node bound + the deep spines; all 2^m subsets; encoded by RefEncoder (1- and 8-byte all-ones markers) and, independently, by the real TagWriter with write_advanced(unknown). Excluded by construction: a global element as the first element after an unknown-size master's last descendant. Oracle: strict parse == flatten(tree) with RefEncoder offsets (Ends before the closing element), and == the all-known encoding's tags. Non-trivial: encodings where an unknown-size master is closed by something other than its own sibling.");
     ctx.meta("bounds", &format!("forests <= {} elements over V (5 master levels), all subsets, devs <= {}", p.max_nodes, p.devs));
     ctx.meta("assumptions", "payload values irrelevant to closing decisions (default tiny payloads)");
-    for c in ["closed_by_sibling", "closed_by_element_one_level_up", "closed_by_element_two_or_more_levels_up", "closed_by_enclosing_known_size_end", "closed_by_end_of_input", "writer_encodings"] {
+    for c in ["closed_by_sibling", "closed_by_element_one_level_up", "closed_by_element_two_or_more_levels_up", "closed_by_enclosing_known_size_end", "closed_by_end_of_input", "writer_encodings", "buffer_boundary_docs"] {
         ctx.expect_nonzero(c);
     }
     let cfg = Cfg::strict();
+    for (i, doc) in docs::buffer_boundary_docs(ctx.tier.pick(24, 64)).into_iter().enumerate() {
+        if !ctx.mine(i as u64) {
+            continue;
+        }
+        let d = || format!("buffer-boundary doc=[{}]", docs::doc_short(&rs, &doc));
+        if !ctx.enter(&d) {
+            continue;
+        }
+        ctx.count("buffer_boundary_docs", 1);
+        let (bytes, lay) = ref_encode(&doc);
+        let want = flatten(&doc, &lay);
+        let obs = parse_slice::<V>(&bytes, &cfg);
+        ctx.transitions += obs.items.len() as u64 + 1;
+        if obs.items != want || !obs.clean() {
+            ctx.violation("buffer-boundary/differs-from-tree", &d, &format!("expected [{}] observed {}", want.iter().map(|(i, o)| format!("{}@{}", i.short(), o)).collect::<Vec<_>>().join(" "), obs.short()));
+        }
+        ctx.validated += 1;
+        ctx.leave();
+    }
     docs::for_each_doc(ctx, &rs, &p, &mut |ctx, doc| {
         if gen::has_ambiguous_global_after_unknown(&rs, doc) {
             ctx.count("excluded_ambiguous_global", 1);
